@@ -51,6 +51,18 @@ func (w *World) checkRow(r *Report, rw row) bool {
 	g := w.FGI(rw.fn)
 	sites := w.callsIn(rw.fn, rw.callee)
 	if len(sites) == 0 {
+		// delegation: fn hands the job to a sibling of its package that makes the call (Forward -> Context.Send ->
+		// SendWithSender). The sibling's body is read in place, its parameters standing for fn's arguments.
+		if g2 := w.delegating(rw.fn, rw.callee); g2 != nil {
+			g = g2
+			for _, in := range g.ins {
+				if ci, ok := in.(ssa.CallInstruction); ok && rw.callee.M(in) {
+					sites = append(sites, ci)
+				}
+			}
+		}
+	}
+	if len(sites) == 0 {
 		r.Fail(rw.rule, key, what, site, "no call of "+rw.name+" in "+fname(rw.fn)+". "+rw.why)
 		return false
 	}
@@ -162,4 +174,54 @@ func (w *World) returnsOnly(fn *ssa.Function, want ...string) (bool, string) {
 		}
 	}
 	return n > 0, "no return"
+}
+
+// delegating: fn's graph with the one same-package callee spliced in whose own body makes the call ev (nil when there is
+// no such callee, or several).
+func (w *World) delegating(fn *ssa.Function, ev Ev) *FG {
+	pkg := fnPkgPath(fn)
+	makes := func(h *ssa.Function) bool {
+		for _, b := range h.Blocks {
+			for _, in := range b.Instrs {
+				if ev.M(in) {
+					return true
+				}
+			}
+		}
+		return false
+	}
+	n := 0
+	isSite := func(c *ssa.Call) bool {
+		h := c.Call.StaticCallee()
+		if c.Parent() != fn || h == nil || h.Blocks == nil || h.Synthetic != "" || !w.isLib(h) || fnPkgPath(h) != pkg || h == fn || c.Call.IsInvoke() {
+			return false
+		}
+		if h.Recover != nil || len(c.Call.Args) != len(h.Params) || !makes(h) {
+			return false
+		}
+		for _, b := range h.Blocks {
+			for _, in := range b.Instrs {
+				switch in.(type) {
+				case *ssa.Defer, *ssa.RunDefers, *ssa.Go:
+					return false
+				}
+			}
+		}
+		return true
+	}
+	for _, b := range fn.Blocks {
+		for _, in := range b.Instrs {
+			if c, ok := in.(*ssa.Call); ok && isSite(c) {
+				n++
+			}
+		}
+	}
+	if n != 1 {
+		return nil
+	}
+	g := w.spliced(fn, map[*ssa.Function]*FG{}, isSite)
+	if g == nil || g.inl == nil {
+		return nil
+	}
+	return g
 }
